@@ -8,6 +8,7 @@ OBLIGATIONS = [
     "KafVerif.C16.no_interference",
     "KafVerif.C16.never_committed_minus_one",
     "KafVerif.C16.consumerKeyOld_aliases",
+    "KafVerif.C16.etcdOffsetKey_aliases",
     "KafVerif.C16.fetchOld_violates",
 ]
 BUILDS = G.BUILDS
@@ -23,7 +24,7 @@ LEVEL_TEXT = ("Lean 4 theorems about the executable model of OffsetCommit/Offset
               "run over names with separators and a monitor holding the specification map.")
 TECHNIQUE = "Lean 4 proof (refinement of a key-value specification) + Go/Lean differential correspondence + property monitor"
 
-PROFILE = G.profile(weights={"xcommit": 14, "xfetch": 14, "commit": 8, "fetch": 6, "join": 4, "hb": 1, "sync": 2, "tick": 1, "fail": 2,
+PROFILE = G.profile(etcd_quick=10, etcd_thorough=60, weights={"xcommit": 14, "xfetch": 14, "commit": 8, "fetch": 6, "join": 4, "hb": 1, "sync": 2, "tick": 1, "fail": 2,
                              "failover": 1, "leave": 1, "meta": 0, "converge": 4},
                     stale_gen=6, fail_kinds=[3, 4], start_converged=90, clients=[1, 1, 2],
                     # group names (harness table): 3 "a:b", 4 "a", 5 "a/offsets/b", 6 "a:t", 7 "grp é x", 8 "a/b"
